@@ -194,6 +194,14 @@ func (p *Pool) MarkUnavailable(ip net.IP) {
 
 	p.unavailable[ip.String()] = struct{}{}
 
+	// The client that declined it no longer holds it: without this the next DISCOVER from
+	// that client is answered from allocated[] with the very address it just declined
+	for mac, allocatedIP := range p.allocated {
+		if allocatedIP.Equal(ip) {
+			delete(p.allocated, mac)
+		}
+	}
+
 	// Remove from available
 	for i, avail := range p.available {
 		if avail.Equal(ip) {
